@@ -390,9 +390,15 @@ class SqliteRecorder(CaseRecorder):
                 constraints = driver._cons
                 objectives = driver._objs
 
-            # merge current abs2prom and prom2abs with this system's version
-            self._abs2prom['input'].update(system._resolver.abs2prom_iter('input'))
-            self._abs2prom['output'].update(system._resolver.abs2prom_iter('output'))
+            # merge current abs2prom and prom2abs with this system's version.  There is one
+            # promoted name per variable in the file, so a name already entered by a system higher
+            # up (recorders are started top down) must not be replaced by a subsystem's relative
+            # name: two instances of the same group would otherwise claim the same name.
+            for io in ('input', 'output'):
+                a2p = self._abs2prom[io]
+                for abs_name, prom in system._resolver.abs2prom_iter(io):
+                    if abs_name not in a2p:
+                        a2p[abs_name] = prom
             for v, abs_names in system._resolver.prom2abs_iter('input'):
                 if v not in self._prom2abs['input']:
                     self._prom2abs['input'][v] = abs_names.copy()
